@@ -35,7 +35,7 @@ EXPLANATION = (
     'member with the documented grouping, the counters added by total_failure_count are exactly those fed by the members of the '
     'folded is_bad set, doit returns non-zero iff total_failure_count() > 0, the label->counter table of summary agrees and every '
     'positive counter is printed.  R5: test_slice returns (int(part 0), int(part 1)) under the documented guards and get_tests '
-    'selects tests[SLICE-1::NUM_SLICES].  NOT decided: asyncio interleavings beyond this await protocol; that timeouts kill '
+    'selects tests[SLICE-1::NUM_SLICES].  R6: get_tests builds the selection by filtering one source at a time (no concatenation), and in the selection generator (tests_from_args) no path leads from a `yield <candidate>` to another one without advancing the single loop over the candidates.  NOT decided: asyncio interleavings beyond this await protocol; that timeouts kill '
     'process groups; --maxfail timing; the composed end-to-end value of complete() for a concrete run (only the per-method tables '
     'and their chaining); the rendered text of summary(); the partition property of --slice as such (only the offset/stride roles).')
 ASSUMPTIONS = [
@@ -1374,6 +1374,95 @@ def r5(ctx: RuleCtx) -> None:
                 f'--slice does not select every NUM_SLICES-th test starting at SLICE-1: {bad}', st_if)
 
 
+# ---------------------------------------------------------------------------
+# R6: at-most-once selection
+# ---------------------------------------------------------------------------
+
+def r6(ctx: RuleCtx) -> None:
+    mod = ctx.repo.module(MTEST)
+    gq = 'TestHarness.get_tests'
+    fn = mod.func(gq)
+    last = fn.body[-1]
+    if not (isinstance(last, ast.Return) and isinstance(last.value, ast.Name)):
+        raise Undecided(f'{gq}: does not end with `return <list of tests>`')
+    var = last.value.id
+    sources = {var, 'self.tests'}
+
+    def from_source(e: ast.AST) -> bool:
+        return any((isinstance(n, ast.Name) and n.id == var) or attr_chain(n) == 'self.tests' for n in ast.walk(e))
+    # (a) get_tests builds the list by filtering / mapping one source at a time, never by concatenation
+    gens: T.List[T.Tuple[str, T.Any, str]] = []
+    nwrites = 0
+    for st in walk_no_nested(fn):
+        if isinstance(st, ast.AugAssign) and isinstance(st.target, ast.Name) and st.target.id == var:
+            nwrites += 1
+            ctx.violation(mod, gq, st, f'`{short(st)}` appends to the list of selected tests: a test can be selected twice', st)
+        elif isinstance(st, ast.Expr) and isinstance(st.value, ast.Call) and isinstance(st.value.func, ast.Attribute) and isinstance(st.value.func.value, ast.Name) \
+                and st.value.func.value.id == var and st.value.func.attr in ('extend', 'append', 'insert', '__iadd__'):
+            nwrites += 1
+            ctx.require(not any(from_source(a) for a in st.value.args), f'`{short(st)}` adds nothing derived from the tests already selected', mod, gq, st,
+                        f'`{short(st)}` adds tests derived from the already selected ones to the same list: a test can be selected twice', st)
+        elif isinstance(st, ast.Assign) and len(st.targets) == 1 and isinstance(st.targets[0], ast.Name) and st.targets[0].id == var:
+            nwrites += 1
+            v = st.value
+            dup = [b for b in ast.walk(v) if isinstance(b, ast.BinOp) and isinstance(b.op, (ast.Add, ast.Mult)) and from_source(b)]
+            if dup:
+                ctx.violation(mod, gq, st, f'`{short(st)}` concatenates / repeats lists derived from the candidate tests: a test can be selected twice', st)
+                continue
+            inner = v.args[0] if isinstance(v, ast.Call) and call_name(v) in ('list', 'tuple', 'sorted') and len(v.args) == 1 else v
+            if isinstance(inner, (ast.ListComp, ast.GeneratorExp)):
+                ok = len(inner.generators) == 1 and isinstance(inner.generators[0].target, ast.Name) and isinstance(inner.elt, ast.Name) \
+                    and inner.elt.id == inner.generators[0].target.id and (attr_chain(inner.generators[0].iter) in sources)
+                if not ok:
+                    raise Undecided(f'{gq}: unknown selection comprehension {short(v)}')
+                ctx.ok(f'`{short(st, 90)}` filters one source: each candidate at most once')
+            elif isinstance(inner, ast.Call) and isinstance(inner.func, ast.Attribute) and attr_chain(inner.func.value) == 'self' and mod.has_func(f'TestHarness.{inner.func.attr}'):
+                g = mod.func(f'TestHarness.{inner.func.attr}')
+                pos = [i for i, a in enumerate(inner.args) if isinstance(a, ast.Name) and a.id == var or attr_chain(a) == 'self.tests']
+                if len(pos) != 1 or inner.keywords:
+                    raise Undecided(f'{gq}: cannot tell which argument of {short(inner)} carries the candidates')
+                params = [a.arg for a in g.args.args if a.arg != 'self']
+                gens.append((f'TestHarness.{inner.func.attr}', g, params[pos[0]]))
+                ctx.ok(f'`{short(st, 90)}` takes the tests from {inner.func.attr}({params[pos[0]]})')
+            elif isinstance(inner, ast.Subscript) and isinstance(inner.value, ast.Name) and inner.value.id == var:
+                ctx.ok(f'`{short(st, 90)}` takes a sub-sequence')
+            else:
+                raise Undecided(f'{gq}: unknown way of building the selection: {short(st)}')
+    ctx.floor('statements of get_tests that build the selection', nwrites, 2)
+    ctx.floor('selection generators called by get_tests', len(gens), 1)
+
+    # (b) every selection generator yields a candidate at most once per iteration of its one loop over the candidates
+    for q, g, cand in gens:
+        ys = [n for n in walk_no_nested(g) if isinstance(n, (ast.Yield, ast.YieldFrom))]
+        if not ys:
+            raise Undecided(f'{q} is not a generator')
+        if any(isinstance(y, ast.YieldFrom) for y in ys):
+            raise Undecided(f'{q}: `yield from` is outside the idioms of this rule')
+        loops = [st for st in walk_no_nested(g) if isinstance(st, (ast.For, ast.AsyncFor)) and isinstance(st.iter, ast.Name) and st.iter.id == cand and isinstance(st.target, ast.Name)]
+        cfg = CFG(g)
+        per_loop: T.Dict[int, T.List[T.Any]] = {}
+        for y in ys:
+            owner = [lp for lp in loops if any(n is y for n in ast.walk(lp)) and isinstance(y.value, ast.Name) and y.value.id == lp.target.id]   # type: ignore[union-attr]
+            if len(owner) != 1:
+                raise Undecided(f'{q}: `{short(y)}` does not yield the variable of a loop over {cand}')
+            per_loop.setdefault(id(owner[0]), []).append(y)
+        ylps = [lp for lp in loops if id(lp) in per_loop]
+        ctx.require(len(ylps) == 1, f'{q}: one loop over {cand} yields', mod, q, f'loops over {cand} that yield',
+                    f'{len(ylps)} loops over {cand} yield tests: the same test can be yielded by each of them', g)
+        for lp in ylps:
+            head = [n for n in cfg.nodes if n.kind == 'iter' and n.ast is lp][0]
+            join = [n for n in cfg.nodes if n.kind == 'join' and n.ast is lp][0]
+            ctx.require(not cfg.can_reach(join, head), f'{q}: the yielding loop over {cand} runs once', mod, q, f'yielding loop over {cand} inside another loop',
+                        f'the loop over {cand} that yields tests is itself repeated (nested in another loop): every test can be yielded once per repetition', lp)
+            ynodes = {id(y): cfg.node_containing(y) for y in per_loop[id(lp)]}
+            for y in per_loop[id(lp)]:
+                for a in ynodes[id(y)]:
+                    again = [y2 for y2 in per_loop[id(lp)] for b in ynodes[id(y2)] if cfg.can_reach(a, b, avoid=[head], no_exc=True)]
+                    ctx.require(not again, f'{q}: after `{short(y)}` no yield is reachable before the next candidate', mod, q, f'second yield of {lp.target.id} in one iteration',   # type: ignore[union-attr]
+                                f'after `{short(y)}` another `yield {lp.target.id}` is reachable without advancing the loop over {cand} '   # type: ignore[union-attr]
+                                f'(e.g. the inner loop is not left): a test matching several patterns is selected, run and counted several times', y)
+
+
 RULES = [
     Rule('C12.R1', 'serial isolation: barriers around a non-parallel test, one scheduling per iteration, final barrier', r1),
     Rule('C12.R2', 'job bound: run() under the num_processes semaphore, cancellation flag, is_parallel implication', r2),
@@ -1381,5 +1470,6 @@ RULES = [
     Rule('C12.R3b', 'timeout table of SingleTestRunner.__init__', r3b),
     Rule('C12.R3c', 'tests serialised by descending priority; scheduling fields in their slots', r3c),
     Rule('C12.R4', 'tallies, total_failure_count, exit status and summary agree', r4),
-    Rule('C12.R5', '--slice i/n partitions the selected tests', r5),
+    Rule('C12.R5', '--slice i/n: parser roles and tests[SLICE-1::NUM_SLICES]', r5),
+    Rule('C12.R6', 'at-most-once selection: a candidate test is yielded / listed once', r6),
 ]
